@@ -1203,8 +1203,8 @@ class XsdGroup(XsdComponent, MutableSequence[ModelParticleType],
             reason = _("wrong content type {!r}").format(type(obj.content))
             context.validation_error(validation, self, reason, elem)
 
-        if not self.mixed and self and \
-                (len(self) > 1 or not isinstance(self[0], XsdAnyElement)) and \
+        if not self.mixed and \
+                (len(self) != 1 or not isinstance(self[0], XsdAnyElement)) and \
                 (text and text.strip() or any(e.tail and e.tail.strip() for e in children)):
             reason = _("character data between child elements not allowed")
             context.validation_error(validation, self, reason, elem)
